@@ -746,3 +746,67 @@ func oracleC16(ctA, ctB corrTrace) error {
 	}
 	return nil
 }
+
+
+// oracleC09 judges only what C09 states, on the sessions of reused PIDs: the
+// events of such a session are emitted (each at least once; order and
+// multiplicity are C02's concern) and carry the identity of the login the
+// model binds to that session — never that of the other login with the same
+// PID; a stray event of the ended session is absent or carries the ended
+// session's own identity. Sessions of PIDs that are not reused are not judged.
+func oracleC09(ct corrTrace) error {
+	h := ct.H
+	logins := map[int]int{}
+	for _, o := range h.Ops {
+		if o.K == "login" {
+			logins[o.P]++
+		}
+	}
+	reusedSes := map[int]bool{}
+	for _, o := range h.Ops {
+		if o.K == "open" && logins[o.P] >= 2 {
+			reusedSes[o.S] = true
+		}
+	}
+	want := map[int]map[int]int{} // session -> event op -> login op
+	got := map[int]map[int]string{}
+	for i, st := range ct.Steps {
+		for _, e := range st.Model {
+			if reusedSes[e.Ses] {
+				if want[e.Ses] == nil {
+					want[e.Ses] = map[int]int{}
+				}
+				want[e.Ses][e.Ev] = e.Login
+			}
+		}
+		for _, a := range st.Actual {
+			s, ok := sesNumber(a.Ses)
+			if !ok || !reusedSes[s] {
+				continue
+			}
+			if l, stray := ct.Model.stray[a.Ev]; stray {
+				if a.Identity != ct.Logins[l] {
+					return fmt.Errorf("step %d (%s): stray event of ended session %s carries identity %s, want the ended session's own %s; history: %s", i, h.Ops[i], a.Ses, a.Identity, ct.Logins[l], h)
+				}
+				continue
+			}
+			if got[s] == nil {
+				got[s] = map[int]string{}
+			}
+			got[s][a.Ev] = a.Identity
+			if wl, expected := want[s][a.Ev]; expected && a.Identity != ct.Logins[wl] {
+				return fmt.Errorf("step %d (%s): event op %d of session s%d (a reused pid) carries identity %s, want that of login op %d %s; history: %s", i, h.Ops[i], a.Ev, s, a.Identity, wl, ct.Logins[wl], h)
+			}
+		}
+		// presence at every prefix: what the model has released for a reused-pid
+		// session by now must have been emitted by now
+		for s, evs := range want {
+			for ev := range evs {
+				if _, ok := got[s][ev]; !ok {
+					return fmt.Errorf("after step %d (%s): event op %d of session s%d (a reused pid) has not been emitted although the login bound to that session (op %d) is known; history: %s", i, h.Ops[i], ev, s, evs[ev], h)
+				}
+			}
+		}
+	}
+	return nil
+}
